@@ -724,7 +724,7 @@ func (g *wholeGen) attachment() any {
 
 var mediaTypePool = []any{"image/png", "image/jpeg", "video/mp4", "audio/ogg", "text/html", "application/pdf", "image/*", "*/*",
 	/* parameters, letter case, structured suffixes, more than one slash */
-	"image/png; q=1", "text/html;charset=utf-8", "IMAGE/PNG", "image/svg+xml", "application/ld+json; profile=\"https://www.w3.org/ns/activitystreams\"", "image/png/extra", "a/b/c", "x-y.z/v1+w",
+	"image/png; q=1", "text/html;charset=utf-8", "IMAGE/PNG", "Image/PNG", "image/PNG", "Video/Mp4", "Audio/OGG; codecs=Opus", "TEXT/html", "Image/*", "image/svg+xml", "application/ld+json; profile=\"https://www.w3.org/ns/activitystreams\"", "image/png/extra", "a/b/c", "x-y.z/v1+w",
 	/* no media type at all */
 	"nonsense", "", "/", "image/", "/png", " image/png", "image /png", "image/ png", "image/png\n", "\nimage/png", 5, nil, true, []any{"image/png"},
 	/* placeholders and control characters inside one */
